@@ -37,10 +37,24 @@ def mk_case(events_, mixers=True, thermostats=True, label="", pattern=None):
                 pattern=list(pattern) if pattern is not None else None)
 
 
+def rand_versions(rng):
+    ks = [k for k in range(N) if rng.random() < 0.4]
+    return "v:" + (".".join(map(str, ks)) if ks else "-")
+
+
+def versions_first(mask, pat, lead=0):
+    """a frame-versions table naming the kinds of `mask` is handled BEFORE the sensor data that starts set-up"""
+    ks = [k for k in range(N) if (mask >> k) & 1]
+    ev = ["v:" + (".".join(map(str, ks)) if ks else "-")]
+    if lead:
+        ev.append(f"w:{lead}")
+    return ev + pattern_events(pat)
+
+
 def random_history(rng):
     ev = []
     for _ in range(rng.choice([0, 0, 0, 1, 3])):     # things that happen before the sensor data
-        ev.append(rng.choice([f"a:{rng.randrange(N)}", "w:500", "t", "w:125"]))
+        ev.append(rng.choice([f"a:{rng.randrange(N)}", "w:500", "t", "w:125", rand_versions(rng)]))
     ev.append("s")
     for _ in range(rng.randint(0, 25)):
         x = rng.random()
@@ -48,8 +62,10 @@ def random_history(rng):
             ev.append(f"a:{rng.choice([0, 0, 2, 5, rng.randrange(N), rng.randrange(N)])}")
         elif x < 0.7:
             ev.append(f"w:{rng.choice([125, 250, 500, 1000, 2875, 3000, 5000])}")
-        elif x < 0.95:
+        elif x < 0.9:
             ev.append("t")
+        elif x < 0.96:
+            ev.append(rand_versions(rng))
         else:
             ev.append("s")
     return ev
@@ -77,6 +93,13 @@ def gen_cases(rng, tier):
             pat = [rng.randrange(4) for _ in range(N)]
             yield mk_case(pattern_events(pat, rng.choice([0, 1500, 7250]), rng.sample(range(N), N)), True, True, "pattern", pat)
         nvar, nrand = 256, 6000
+    # frame-versions table before the sensor data: every subset of the eight kinds (thorough) x nothing answered /
+    # everything answered / named kinds unanswered, the others answered / a random pattern
+    masks = range(256) if tier != "quick" else sorted({0, 255, 1, 4, 32, 0b00111101} | {rng.randrange(256) for _ in range(40)})
+    for m in masks:
+        named = [(m >> k) & 1 for k in range(N)]
+        for pat in ([0] * N, [1] * N, [0 if named[k] else 1 for k in range(N)], [rng.randrange(4) for _ in range(N)]):
+            yield mk_case(versions_first(m, pat, rng.choice([0, 500])), True, True, "versions-first", pat)
     # variants: mixer-parameters response without mixers (no product dependency), no thermostats
     for i in range(nvar):
         m = i if nvar == 256 else rng.randrange(256)
@@ -113,7 +136,7 @@ def _work(c):
 def impl_string(groups, summ):
     ld = (f"{summ['loaded_at']};{'.'.join(summ['errors']) if summ['errors'] else '-'}" if summ["loaded_at"] is not None else "-;-")
     return ("|".join(",".join(g) if g else "-" for g in groups)
-            + f";{summ['now']};{summ['present']};{','.join(map(str, summ['tx']))};{ld}")
+            + f";{summ['now']};{summ['present']};{','.join(map(str, summ['tx']))};{ld};{','.join(map(str, summ['vtx']))}")
 
 
 def check(res, results):
@@ -143,6 +166,9 @@ def check(res, results):
             res.count("loaded after (ms):%d" % (3000 * ((summ["loaded_at"] - t0 + 2999) // 3000)) if summ["loaded_at"] > t0 else "loaded after (ms):0")
         if c["pattern"] is not None:
             res.count("product answered on attempt:%d" % c["pattern"][0])
+        if any(e.startswith("v:") for e in c["events"]):
+            res.count("frame-versions table handled: " + ("before the sensor data" if c["events"][0].startswith("v:") else "later / elsewhere"))
+            res.count("requests by the versions handler:%d" % sum(summ["vtx"]))
         bad = []
         if any(e.startswith("X") for e in (summ["errors"] or [])):
             bad.append(f"frame_errors holds something that is not a set-up frame type: {summ['errors']}")
@@ -168,9 +194,10 @@ def run(ctx):
     res = Result("C16")
     res.rule = ("pattern = per set-up kind the attempt (1..3) on which its response is handled, or never; compiled to "
                 "sensors + per attempt window the answers 125 ms apart + timer.  corpus; the 256 subsets (answered on attempt 1); "
-                "quick: 500 random patterns with random answer order, thorough: all 4^8 patterns; variants (mixer response without "
+                "quick: 500 random patterns with random answer order, thorough: all 4^8 patterns; a frame-versions table (regulator-data message) "
+                "naming a subset of the kinds handled BEFORE the sensor data (thorough: all 2^8 subsets x 4 answer patterns); variants (mixer response without "
                 "mixers, no thermostats); random free-form histories (answers before the sensor data, duplicate and late answers, "
-                "clock advances, repeated sensor data).  distinct = distinct (history, variant); non-trivial = sensor data was delivered")
+                "clock advances, repeated sensor data, frame-versions tables at any time).  distinct = distinct (history, variant); non-trivial = sensor data was delivered")
     cases = list(gen_cases(rng, tier))
     if ctx.get("max_cases"):
         cases = cases[:ctx["max_cases"]]
